@@ -71,7 +71,9 @@ class DynamicSchedulingFromPlan(Scheduling):
         self.alternate = 0
         temporary_resources = cluster.get_available_resources()
         max_allocations_iteration = len(temporary_resources)
-        for task in sorted(task_pool, key=lambda x: x.est):
+        # ties in est are broken by task id, not by set (hash) order
+        for task in sorted(task_pool,
+                           key=lambda x: (x.est, len(str(x.id)), str(x.id))):
             if len(allocations) >= max_allocations_iteration:
                 break
             if (
